@@ -1105,7 +1105,20 @@ func policies(dom *domain) []polSpec {
 }
 
 func TestCheck(t *testing.T) {
+	if spec := os.Getenv("VERIF_C16_PROC"); spec != "" {
+		procChild16(spec)
+		return
+	}
 	r := runner.Start("C16", "exploration")
+	if runner.ReplayPath() != "" && replayProc16(r) {
+		r.Finish()
+		return
+	}
+	if os.Getenv("VERIF_C16_PART") == "process" { // development switch
+		processPart16(r)
+		r.Finish()
+		return
+	}
 	if part, child := runner.IsShard(); child {
 		if part == concPart { // part (S): one shard of the schedule explorations (conc_test.go)
 			concChild(t, r.Thorough())
@@ -1290,6 +1303,8 @@ func TestCheck(t *testing.T) {
 
 	// part (S): overlapping deliveries on one deliverer under the controlled scheduler (conc_test.go); child processes
 	concPartRun(r, t)
+	// ---- part (P): the dispatcher as the real run() wires it, in a child process (process_test.go) ----
+	processPart16(r)
 
 	r.Set("policies", len(pols))
 	r.Set("list_policies_total", len(lpols))
